@@ -46,3 +46,147 @@ contract("gherkin.pickles.compiler.Compiler._create_pickle_arguments",
          loops={0: loop(invariant=[clause("rows", lambda table, _i, _seq, variables, values:
                                           len(table["rows"]) == _i and forall(_i, lambda j: table["rows"][j] == arg_row(
                                               _seq[j], variables, values)), serves=["C07", "C09"])])})
+
+contract("gherkin.pickles.compiler.Compiler._pickle_step",
+         args=dict(self="Compiler", step="Step", keyword_type=Str), returns="PickleStep",
+         modifies=["self.id_generator._id_counter"],
+         result_is=lambda self, step, keyword_type: spec_pstep(
+             step, keyword_type, itos(self.id_generator._id_counter), seq_empty(Str), step["text"],
+             seq_empty("parser_types.Cell"), seq_empty("parser_types.Cell")),
+         ensures=[clause("one-id", lambda self: self.id_generator._id_counter == old(self.id_generator._id_counter) + 1,
+                         serves=["C11"])],
+         serves=["C07", "C09", "C10", "C11"])
+
+# _compile_scenario: exactly one pickle is appended; steps = in-scope background steps then own steps (none when the
+# scenario has no steps); tags = inherited then own; types carried over and/but steps; ids steps first, then the pickle.
+contract("gherkin.pickles.compiler.Compiler._compile_scenario",
+         args=dict(self="Compiler", uri=Str, inherited_tags=ListOf("Tag"), background_steps=MutList("Step"),
+                   scenario="Scenario", language=Str, pickles=MutList("Pickle")),
+         returns=NoneT,
+         modifies=["pickles", "self.id_generator._id_counter"],
+         ensures=[
+             clause("one-pickle", lambda pickles: len(pickles) == len(old(pickles)) + 1
+                    and forall(len(old(pickles)), lambda j: pickles[j] == old(pickles)[j]), serves=["C06"]),
+             clause("source", lambda pickles, scenario, uri, language:
+                    pickles[len(pickles) - 1]["astNodeIds"] == [scenario["id"]]
+                    and pickles[len(pickles) - 1]["name"] == scenario["name"]
+                    and pickles[len(pickles) - 1]["uri"] == uri
+                    and pickles[len(pickles) - 1]["language"] == language, serves=["C06", "C11"]),
+             clause("tags", lambda pickles, inherited_tags, scenario:
+                    pickles[len(pickles) - 1]["tags"] == pickle_tags(inherited_tags + scenario["tags"]), serves=["C08"]),
+             clause("steps", lambda self, pickles, background_steps, scenario:
+                    len(pickles[len(pickles) - 1]["steps"]) == len(scenario_steps(background_steps, scenario))
+                    and forall(len(scenario_steps(background_steps, scenario)), lambda j:
+                               pickles[len(pickles) - 1]["steps"][j] == plain_pstep(
+                                   scenario_steps(background_steps, scenario), j, old(self.id_generator._id_counter))),
+                    serves=["C07", "C10", "C09", "C11"]),
+             clause("ids", lambda self, pickles, background_steps, scenario:
+                    pickles[len(pickles) - 1]["id"] == itos(old(self.id_generator._id_counter) + len(
+                        scenario_steps(background_steps, scenario)))
+                    and self.id_generator._id_counter == old(self.id_generator._id_counter) + len(
+                        scenario_steps(background_steps, scenario)) + 1, serves=["C11"]),
+         ],
+         loops={0: loop(
+             invariant=[
+                 clause("steps", lambda self, steps, _i, _seq: len(steps) == _i and forall(_i, lambda j: steps[j] == plain_pstep(
+                     _seq, j, old(self.id_generator._id_counter))), serves=["C07", "C10", "C09", "C11"]),
+                 clause("type", lambda last_keyword_type, _i, _seq: last_keyword_type == eff_type(_seq, _i), serves=["C10"]),
+                 clause("counter", lambda self, _i: self.id_generator._id_counter == old(self.id_generator._id_counter) + _i,
+                        serves=["C11"]),
+             ],
+             types=dict(steps=MutList("PickleStep")),
+             modifies=["self.id_generator"])})
+
+# _compile_scenario_outline: one pickle per body row of every examples table that has a header, in order;
+# content (source, tags, steps) of each = row_pickle(...)   [ids: see clause 'ids-advance'; dense order is C11's bounded part]
+contract("gherkin.pickles.compiler.Compiler._compile_scenario_outline",
+         args=dict(self="Compiler", uri=Str, inherited_tags=ListOf("Tag"), background_steps=MutList("Step"),
+                   scenario="Scenario", language=Str, pickles=MutList("Pickle")),
+         requires=[clause("rectangular", lambda scenario: rectangular(scenario))],
+         returns=NoneT,
+         modifies=["pickles", "self.id_generator._id_counter"],
+         ensures=[
+             clause("count", lambda pickles, scenario, inherited_tags, background_steps, uri, language:
+                    len(pickles) == len(old(pickles)) + len(outline_flat(len(scenario["examples"]), scenario, inherited_tags,
+                                                                         background_steps, uri, language))
+                    and forall(len(old(pickles)), lambda j: pickles[j] == old(pickles)[j]), serves=["C06"]),
+             clause("source", lambda pickles, scenario, inherited_tags, background_steps, uri, language: forall(
+                 len(outline_flat(len(scenario["examples"]), scenario, inherited_tags, background_steps, uri, language)),
+                 lambda k: same_source(pickles[len(old(pickles)) + k], outline_flat(
+                     len(scenario["examples"]), scenario, inherited_tags, background_steps, uri, language)[k])),
+                 serves=["C06", "C09", "C11"]),
+             clause("tags", lambda pickles, scenario, inherited_tags, background_steps, uri, language: forall(
+                 len(outline_flat(len(scenario["examples"]), scenario, inherited_tags, background_steps, uri, language)),
+                 lambda k: same_tags(pickles[len(old(pickles)) + k], outline_flat(
+                     len(scenario["examples"]), scenario, inherited_tags, background_steps, uri, language)[k])),
+                 serves=["C08"]),
+             clause("steps", lambda pickles, scenario, inherited_tags, background_steps, uri, language: forall(
+                 len(outline_flat(len(scenario["examples"]), scenario, inherited_tags, background_steps, uri, language)),
+                 lambda k: same_steps(pickles[len(old(pickles)) + k], outline_flat(
+                     len(scenario["examples"]), scenario, inherited_tags, background_steps, uri, language)[k])),
+                 serves=["C07", "C09", "C10"]),
+             clause("ids-advance", lambda self: self.id_generator._id_counter >= old(self.id_generator._id_counter),
+                    serves=["C11"]),
+         ],
+         loops={
+             0: loop(invariant=[
+                 clause("count", lambda pickles, _i, scenario, inherited_tags, background_steps, uri, language:
+                        len(pickles) == len(old(pickles)) + len(outline_flat(_i, scenario, inherited_tags, background_steps,
+                                                                             uri, language))
+                        and forall(len(old(pickles)), lambda j: pickles[j] == old(pickles)[j]),
+                        serves=["C06", "C07", "C08", "C09", "C10", "C11"]),
+                 clause("source", lambda pickles, _i, scenario, inherited_tags, background_steps, uri, language: forall(
+                     len(outline_flat(_i, scenario, inherited_tags, background_steps, uri, language)),
+                     lambda k: same_source(pickles[len(old(pickles)) + k], outline_flat(
+                         _i, scenario, inherited_tags, background_steps, uri, language)[k])), serves=["C06", "C09", "C11"]),
+                 clause("tags", lambda pickles, _i, scenario, inherited_tags, background_steps, uri, language: forall(
+                     len(outline_flat(_i, scenario, inherited_tags, background_steps, uri, language)),
+                     lambda k: same_tags(pickles[len(old(pickles)) + k], outline_flat(
+                         _i, scenario, inherited_tags, background_steps, uri, language)[k])), serves=["C08"]),
+                 clause("steps", lambda pickles, _i, scenario, inherited_tags, background_steps, uri, language: forall(
+                     len(outline_flat(_i, scenario, inherited_tags, background_steps, uri, language)),
+                     lambda k: same_steps(pickles[len(old(pickles)) + k], outline_flat(
+                         _i, scenario, inherited_tags, background_steps, uri, language)[k])), serves=["C07", "C09", "C10"]),
+                 clause("ids-advance", lambda self: self.id_generator._id_counter >= old(self.id_generator._id_counter),
+                        serves=["C11"]),
+             ], modifies=["self.id_generator", "pickles"]),
+             1: loop(invariant=[
+                 clause("count", lambda pickles, _i: len(pickles) == len(entry(pickles)) + _i
+                        and forall(len(entry(pickles)), lambda j: pickles[j] == entry(pickles)[j]),
+                        serves=["C06", "C07", "C08", "C09", "C10", "C11"]),
+                 clause("source", lambda pickles, _i, _seq, examples, scenario, inherited_tags, background_steps, uri, language:
+                        forall(_i, lambda r: same_source(pickles[len(entry(pickles)) + r], row_pickle(
+                            examples, _seq[r], scenario, inherited_tags, background_steps, uri, language))),
+                        serves=["C06", "C09", "C11"]),
+                 clause("tags", lambda pickles, _i, _seq, examples, scenario, inherited_tags, background_steps, uri, language:
+                        forall(_i, lambda r: same_tags(pickles[len(entry(pickles)) + r], row_pickle(
+                            examples, _seq[r], scenario, inherited_tags, background_steps, uri, language))), serves=["C08"]),
+                 clause("steps", lambda pickles, _i, _seq, examples, scenario, inherited_tags, background_steps, uri, language:
+                        forall(_i, lambda r: same_steps(pickles[len(entry(pickles)) + r], row_pickle(
+                            examples, _seq[r], scenario, inherited_tags, background_steps, uri, language))),
+                        serves=["C07", "C09", "C10"]),
+                 clause("ids-advance", lambda self: self.id_generator._id_counter >= old(self.id_generator._id_counter),
+                        serves=["C11"]),
+             ], modifies=["self.id_generator", "pickles"]),
+             2: loop(invariant=[
+                 clause("steps", lambda steps, _i, background_steps, scenario, variable_cells, values:
+                        len(steps) == _i and forall(_i, lambda j: same_step(steps[j], outline_pstep(
+                            scenario_steps(background_steps, scenario), len(background_steps), j, variable_cells, values))),
+                        serves=["C07", "C09", "C10"]),
+                 clause("type", lambda last_keyword_type, _i, background_steps, scenario:
+                        last_keyword_type == eff_type(scenario_steps(background_steps, scenario), _i), serves=["C10"]),
+                 clause("ids-advance", lambda self: self.id_generator._id_counter >= old(self.id_generator._id_counter),
+                        serves=["C11"]),
+             ], types=dict(steps=MutList("PickleStep")), modifies=["self.id_generator"]),
+             3: loop(invariant=[
+                 clause("steps", lambda steps, _i, background_steps, scenario, variable_cells, values:
+                        len(steps) == len(background_steps) + _i and forall(len(background_steps) + _i, lambda j: same_step(
+                            steps[j], outline_pstep(scenario_steps(background_steps, scenario), len(background_steps), j,
+                                                    variable_cells, values))), serves=["C07", "C09", "C10"]),
+                 clause("type", lambda last_keyword_type, _i, background_steps, scenario:
+                        last_keyword_type == eff_type(scenario_steps(background_steps, scenario), len(background_steps) + _i),
+                        serves=["C10"]),
+                 clause("ids-advance", lambda self: self.id_generator._id_counter >= old(self.id_generator._id_counter),
+                        serves=["C11"]),
+             ], types=dict(steps=MutList("PickleStep")), modifies=["self.id_generator"]),
+         })
